@@ -11,7 +11,10 @@ SPEC = dict(
          "(all four bound kinds, active bounds) / linear equality+inequality rows, Rosenbrock-like, dimension 1..8 "
          "(thorough 1..20); LBFGS, LBFGSB, InteriorPoint, CMAES (fixed seed), BestAvailable, CFSQP fallback; analytic and "
          "numerical (forward/central) gradients and Jacobians; feasible and infeasible starts; 1/12 of the gradient runs forced to "
-         "fail (IPOPT maxIterations=2, wrong-sign gradient for L-BFGS(-B)) to exercise the exception path; distinct = distinct records",
+         "fail (IPOPT maxIterations=2, wrong-sign gradient for L-BFGS(-B)) to exercise the exception path; every fourth case a limits-"
+         "lattice case (LBFGSB / InteriorPoint / CMAES / BestAvailable x dimension 2, 5, 9..16 x start interior / face / edge / corner, "
+         "limits two-sided / one-sided / mixed / some infinite, optimum interior / on the boundary; CMA-ES with a 40-iteration budget), "
+         "cell = function of (seed, index); distinct = distinct records",
     partial="(i) proved about simbody's own code, executed by the driver and tied exhaustively/exactly: the constructOptimizerRep "
             "selection table + constructor dimension checks (9 theorems), simbody's L-BFGS termination test (lbfgs_stop_gradnorm, "
             "lbfgs_stop_distance: checked to hold at every returned LBFGS point and giving the one PROVED distance constant), the "
